@@ -52,7 +52,7 @@ ASSUMPTIONS = [
 ]
 REAL = ["BaseOrchestrator.get_invocations_to_run / route_call / route_calls", "Mem/SQLite orchestrators (argument index)", "ThreadRunner loop", "DistributedInvocation.run", "Task.parallelize", "BaseTrigger.execute_task", "SQLite engine"]
 STUBBED = ["thread / process scheduling", "clock", "uuid4", "busy handler"]
-PROBES = ["blocked_final", "blocked_rerouted", "same_key_pairs", "two_pollers_same_key", "retry_blocked", "batch_path_used", "auto_purge_calls"]
+PROBES = ["blocked_final", "blocked_rerouted", "same_key_pairs", "two_pollers_same_key", "retry_blocked", "batch_path_used", "auto_purge_calls", "slow_client_submission"]
 
 
 def plan(tier: str) -> list[dict]:
@@ -126,6 +126,34 @@ def run(seed: int, params: dict, replay: dict | None = None) -> dict:
                     rec["end"] = sim.now
 
             orch.get_invocations_to_run = wrapped
+
+        # fault: a slow client - every effect it performs inside one submission is preceded by a short stall, so the
+        # windows between "registered", "queued" and "indexed" are held open while the runners poll
+        slow_client = rng.random() < 0.3
+        if slow_client:
+            import sys as _sys
+
+            pause = rng.choice([0.02, 0.05])
+            budget = {"n": 0}
+
+            def hook(th: Any, kind_: str, detail: Any) -> None:
+                if th.name != "c/main" or budget["n"] >= 80 or kind_ not in ("sql", "line", "lock-acquire", "clock"):
+                    return
+                f = _sys._getframe(2)
+                for _ in range(40):
+                    if f is None:
+                        return
+                    if f.f_code.co_name in ("route_calls", "_route_new_call_invocation", "register_new_invocations"):
+                        break
+                    f = f.f_back
+                else:
+                    return
+                budget["n"] += 1
+                if budget["n"] == 1:
+                    sim.bump("fault.slow_client_submission")
+                sim.sleep(pause)
+
+            sim.fault_hook = hook
 
         def client() -> None:
             app = d.app("c")
@@ -203,6 +231,8 @@ def run(seed: int, params: dict, replay: dict | None = None) -> dict:
         keys = {inv: _key(mode, key_args, {k: v for k, v in m["kw"].items()}) for inv, m in info.items()}
         same_pairs = sum(1 for a in keys for b in keys if a < b and keys[a] == keys[b])
         st["probe.same_key_pairs"] = same_pairs
+        if st.get("fault.slow_client_submission"):
+            st["probe.slow_client_submission"] = st["fault.slow_client_submission"]
         by_inv: dict[str, list[dict]] = {}
         for e in sorted(w.tlog, key=lambda e: (e["ts"], e["seq"])):
             by_inv.setdefault(e["inv"], []).append(e)
